@@ -54,11 +54,7 @@ let ns l = List.map n_of_int l
 let is l = List.map int_of_n l
 let shex (l : n list) = utf8_hex (is l)
 let bhex (l : n list) = String.concat "" (List.map (fun x -> Printf.sprintf "%02x" (int_of_n x)) l)
-let rec dec_of_n (x : n) = string_of_int (int_of_n x)
 let ascii_hex s = String.concat "" (List.map (fun c -> Printf.sprintf "%02x" (Char.code c)) (List.init (String.length s) (String.get s)))
-(* decimal printing of an N that may exceed 63 bits: go through the binary representation *)
-let rec pos_to_z (p : positive) : (int * int) =   (* value split as hi*10^9 + lo is overkill; use floats free string arithmetic *)
-  (0, int_of_pos p)
 let big_dec (x : n) : string =
   (* schoolbook: repeated doubling on a decimal digit array *)
   let digits = ref [0] in
@@ -143,6 +139,18 @@ let () =
              shex out ^ "\t-\t" ^ canon_qname (out @ kk)
            | "X" -> "-\t" ^ canon_lex (ql_lex1 u (str ())) ^ "\t-"
            | "Y" -> "-\t-\t" ^ canon_qname (str ())
+           | "y" ->
+             (* the PostgreSQL spec applied to a given (real) output followed by k *)
+             let t = str () @ kk in
+             "-\t-\t" ^ (match fl with
+               | 0 -> canon_pg (pg_lex1 t)
+               | 1 -> (match pg_lex1 t with
+                       | PgOk (PSConst v, rest) ->
+                         (match pg_bytea_in v with
+                          | Some bs -> "ok:Y:" ^ bhex bs ^ ":" ^ shex rest
+                          | None -> "err")
+                       | r -> canon_pg r)
+               | _ -> canon_qname t)
            | _ -> "-\t-\t-" in
          print_string res
        | _ -> print_string "-\t-\t-");
